@@ -35,7 +35,8 @@ from vt.gen import held, violated, ood
 PROP = "C09"
 RULE = ("models = (per-epoch candidate lists, observation symbols, likelihood tables). Exhaustive family: every model with "
         "T<=3 epochs and 1..2 candidates per epoch (all count vectors) whose P and Q entries range over {0, 0.5, 1}, "
-        "enumerated in blocks of 729; sampled family: T=1..8, 1..5 candidates per epoch drawn as ordered subsets of a "
+        "enumerated in blocks of 729, plus the zero-free set {0.25, 0.5, 1} on the smaller count vectors (strided on the "
+        "larger); sampled family: T=1..8, 1..5 candidates per epoch drawn as ordered subsets of a "
         "6-label universe (counts differ per epoch), stationary tables (setStationarity(True), same list each epoch) and "
         "per-epoch tables, value sets {0,.5,1}, {.25,.5,1}, k/8 up to 2 (unnormalised), 20-bit random reals with injected "
         "zeros, sparse (half zeros); each model is decoded with likelihoods and again with logarithms. "
@@ -46,11 +47,15 @@ ASSUMPTIONS = ["the enumeration oracle's arithmetic is exact (dyadic floats / Fr
                "positive-likelihood sequences (models violating this are out of domain)",
                "callbacks S, Q, P are pure functions of their documented arguments"]
 EXHAUSTIVE = {"quick": "all models with T<=3, S<=2 over {0,0.5,1} for every count vector except (2,2,2) "
-                       "(392 502 models); (2,2,2) is strided 1/27 (177 147 of 4 782 969)",
-              "thorough": "all 5 175 471 models with T<=3 epochs, 1..2 candidates per epoch, P and Q entries in {0,0.5,1}"}
+                       "(392 241 models); (2,2,2) is strided 1/27 (177 147 of 4 782 969); {0.25,0.5,1}: all models with at most "
+                       "9 table entries",
+              "thorough": "all 5 175 210 models with T<=3 epochs, 1..2 candidates per epoch, P and Q entries in {0,0.5,1}; "
+                          "{0.25,0.5,1}: all models except count vector (2,2,2)"}
 CASE_LIMIT_S = 60.0
 
 THREE = [0.0, 0.5, 1.0]
+QUARTER = [0.25, 0.5, 1.0]
+VALSETS = {"three": THREE, "quarter": QUARTER}
 BLOCK = 729
 FLOOR = 1e-300
 ENUM_LIMIT = 50000
@@ -342,18 +347,30 @@ def compact_from_index(counts, idx, vals):
 
 
 def exh_blocks(tier):
-    """[(counts, lo, hi, stride)] covering the exhaustive family."""
+    """[(counts, lo, hi, stride, valset)] covering the exhaustive families:
+    {0,.5,1} completely (quick: (2,2,2) strided), and the zero-free set
+    {.25,.5,1} (every model has a positive optimum, many ties) on the count
+    vectors with at most 9 (quick) / 11 (thorough) table entries plus a
+    strided pass over the larger ones."""
     out = []
-    for counts in count_vectors():
-        total = 3 ** n_entries(counts)
-        stride = 1
-        if tier == "quick" and counts == [2, 2, 2]:
-            stride = 27
-        span = BLOCK * stride
-        lo = 0
-        while lo < total:
-            out.append((counts, lo, min(total, lo + span), stride))
-            lo += span
+    for vs in ("three", "quarter"):
+        for counts in count_vectors():
+            ne = n_entries(counts)
+            total = 3 ** ne
+            stride = 1
+            if vs == "three":
+                if tier == "quick" and counts == [2, 2, 2]:
+                    stride = 27
+            else:
+                if tier == "quick" and ne > 9:
+                    stride = 27 if ne <= 11 else 729
+                if tier == "thorough" and ne > 11:
+                    stride = 27
+            span = BLOCK * stride
+            lo = 0
+            while lo < total:
+                out.append((counts, lo, min(total, lo + span), stride, vs))
+                lo += span
     return out
 
 
@@ -376,13 +393,14 @@ def chunks(tier, seed):
 
 def floors(tier):
     big = tier == "thorough"
-    return {"monitors": {"membership": 500000, "optimal_likelihood": 300000, "last_epoch_cost": 300000,
-                         "log_mode_same_cost": 50000},
-            "classes": {"exhaustive_block": 700, "ties": 300, "zeros": 1000, "all_zero": 100,
+    k = 8 if big else 1
+    return {"monitors": {"membership": 500000 * k, "optimal_likelihood": 120000 * k, "last_epoch_cost": 120000 * k,
+                         "log_mode_same_cost": 100000 * k},
+            "classes": {"exhaustive_block": 700 * k, "exh_three": 700 * k, "exh_quarter": 60 * k, "ties": 300, "zeros": 1000, "all_zero": 100,
                         "unique_optimum": 500, "unequal_counts": 1500, "stationary": 500, "per_epoch": 1500,
                         "T=1": 50, "T>=6": 500, "single_candidate_epoch": 500, "unnormalised_gt1": 300,
                         "obs_2d": 500, "five_candidates": 300, "viterbi_oracle": 3 if not big else 50},
-            "counters": {"models_judged": 500000, "models_with_ties": 50000, "models_all_zero": 20000,
+            "counters": {"models_judged": 500000 * k, "models_with_ties": 30000 * k, "models_all_zero": 20000 * k,
                          "diag_tie_cells": 1000, "oracle_selfcheck": 1000},
             "distinct_nontrivial": 4000}
 
@@ -440,8 +458,8 @@ def cases(chunk):
     if chunk["kind"] == "exh":
         blocks = exh_blocks(chunk["tier"])
         for i in range(chunk["shard"], len(blocks), chunk["of"]):
-            counts, lo, hi, stride = blocks[i]
-            yield {"kind": "exh", "counts": counts, "lo": lo, "hi": hi, "stride": stride}
+            counts, lo, hi, stride, vs = blocks[i]
+            yield {"kind": "exh", "counts": counts, "lo": lo, "hi": hi, "stride": stride, "vals": vs}
     else:
         for _ in range(chunk["n"]):
             yield gen_model(rng, chunk["family"])
@@ -459,11 +477,12 @@ def _is_nontrivial(best, nbest, nseq):
 def run_exh(case, ctx):
     counts = case["counts"]
     stride = case.get("stride", 1)
-    sig = ("exh", tuple(counts), case["lo"], case["hi"], stride)
+    vals = VALSETS[case.get("vals", "three")]
+    sig = ("exh", case.get("vals", "three"), tuple(counts), case["lo"], case["hi"], stride)
     nt = False
     n = n_ties = n_zero = 0
     for idx in range(case["lo"], case["hi"], stride):
-        p, q = compact_from_index(counts, idx, THREE)
+        p, q = compact_from_index(counts, idx, vals)
         mdl = model_from_compact(counts, p, q)
         best, nbest, nseq = enum_best(p, q, counts)       # dyadic floats: exact
         n += 1
@@ -494,7 +513,7 @@ def run_exh(case, ctx):
     ctx.count("models_judged", n)
     ctx.count("models_with_ties", n_ties)
     ctx.count("models_all_zero", n_zero)
-    cls = ["exhaustive_block", "T=%d" % len(counts)]
+    cls = ["exhaustive_block", "exh_" + case.get("vals", "three"), "T=%d" % len(counts)]
     if len(set(counts)) > 1:
         cls.append("exh_unequal_counts")
     return held(sig, nt, cls)
